@@ -1,8 +1,9 @@
 (* Path.v — model of the path handling of `mlar extract` (mlar/src/main.rs):
    `std::path::Path::components()` on Unix, `get_extracted_path`, a small
-   file system with directories, regular files and symbolic links,
-   `fs::canonicalize`, `fs::create_dir_all`, `File::create`, `create_file`
-   and the per-member extraction loop.
+   file system with directories, regular files and symbolic links (absolute
+   or relative targets, ".." in targets), path resolution, `fs::canonicalize`,
+   `fs::symlink_metadata`, `fs::create_dir_all`, `File::create`, append-mode
+   reopen, `create_file` and the two extraction forms.
    Definitions only; everything is computable.  Proofs are in PathProofs.v. *)
 From MLA Require Import Base.
 From Coq Require Strings.String Strings.Ascii.
@@ -124,14 +125,26 @@ Definition get_path_nofilter (out : path) (name : bytes) : option path :=
 (* ------------------------------------------------------------------ *)
 (** * Model file system *)
 
+(* A step of a symbolic-link target: ".." or a name.  ("." and empty pieces of
+   a target string are no-ops for the kernel and are not represented.) *)
+Inductive seg := Up | Down (c : bytes).
+
+(* Target of a symbolic link: (absolute?, steps).  "../sibling" is
+   (false, [Up; Down "sibling"]); "/etc/passwd" is (true, [Down "etc"; Down
+   "passwd"]).  A relative target is resolved from the directory that holds
+   the link. *)
+Definition target := (bool * list seg)%type.
+
 Inductive node :=
 | Dir
 | File (content : bytes)
-| Link (target : path).   (* symbolic link, absolute target *)
+| Link (t : target).       (* symbolic link *)
 
-(* Association list from literal absolute paths to nodes, first match wins.
-   "/" ([]) is always a directory.  An entry whose parent is not a directory
-   is simply unreachable by path resolution. *)
+(* Association list from physical absolute paths to nodes, first match wins.
+   "/" ([]) is always a directory.  A key is the physical location of its
+   node: every operation below stores at a path it has resolved.  An entry
+   whose parent is not a directory is unreachable by path resolution (the
+   theorems hold for such stores too). *)
 Definition fs := list (path * node).
 
 Definition path_eqb : path -> path -> bool := list_eqb bytes_eqb.
@@ -172,37 +185,49 @@ Fixpoint split_last {A} (l : list A) : option (list A * A) :=
       end
   end.
 
-(** ** canonicalize *)
+(** ** path resolution (path_resolution(7)), canonicalize *)
 
-(* Walk down from the canonical directory `cur` along `rest` until the end,
-   a failure, or the first symbolic link. *)
+(* a literal path (no ".." in it) as steps *)
+Definition down (p : path) : list seg := map Down p.
+
+(* where the resolution of a link target starts: "/" for an absolute target,
+   the directory holding the link (cur, physical) for a relative one *)
+Definition link_base (cur : path) (t : target) : path := if fst t then [] else cur.
+
+(* Walk from the physical directory `cur` along `rest` until the end, a
+   failure, or the first symbolic link.  ".." goes to the physical parent of
+   the current directory ("/.." is "/").  On a link the walk stops and hands
+   back where to continue: the base of the target and target ++ what was left. *)
 Inductive walk_res :=
 | WDone (p : path)
 | WFail
-| WLink (target rest : path).
+| WLink (cur : path) (rest : list seg).
 
-Fixpoint walk (f : fs) (cur rest : path) : walk_res :=
+Fixpoint walk (f : fs) (cur : path) (rest : list seg) : walk_res :=
   match rest with
   | [] => WDone cur
-  | c :: rest' =>
+  | Up :: rest' => walk f (removelast cur) rest'
+  | Down c :: rest' =>
       match lookup f (cur ++ [c]) with
       | None => WFail                                   (* ENOENT *)
       | Some Dir => walk f (cur ++ [c]) rest'
       | Some (File _) =>
           match rest' with [] => WDone (cur ++ [c]) | _ => WFail (* ENOTDIR *) end
-      | Some (Link t) => WLink t rest'
+      | Some (Link t) => WLink (link_base cur t) (snd t ++ rest')
       end
   end.
 
-(* `links` bounds the number of symbolic links followed (ELOOP beyond it). *)
-Fixpoint resolve (links : nat) (f : fs) (p : path) : option path :=
-  match walk f [] p with
+(* `links` bounds the number of symbolic links followed: beyond it the
+   resolution fails (ELOOP).  This is the only well-formedness the model needs
+   for link cycles: a cycle makes resolution fail, as in the kernel. *)
+Fixpoint resolve (links : nat) (f : fs) (cur : path) (rest : list seg) : option path :=
+  match walk f cur rest with
   | WDone q => Some q
   | WFail => None
-  | WLink t r =>
+  | WLink cur' rest' =>
       match links with
       | O => None
-      | S k => resolve k f (t ++ r)
+      | S k => resolve k f cur' rest'
       end
   end.
 
@@ -210,18 +235,37 @@ Definition MAXSYMLINKS : nat := 40.  (* Linux *)
 
 (* fs::canonicalize: all components must exist; symlinks resolved everywhere,
    including the last component. *)
-Definition canonicalize (f : fs) (p : path) : option path := resolve MAXSYMLINKS f p.
+Definition canonicalize (f : fs) (p : path) : option path :=
+  resolve MAXSYMLINKS f [] (down p).
 
 (* Path::exists: metadata() succeeds (follows symlinks) *)
 Definition exists_ (f : fs) (p : path) : bool :=
   match canonicalize f p with Some _ => true | None => false end.
 
+(* fs::symlink_metadata = lstat: the parent is resolved (following links), the
+   last component is NOT followed *)
+Definition lstat (f : fs) (p : path) : option node :=
+  match split_last p with
+  | None => Some Dir
+  | Some (par, c) =>
+      match canonicalize f par with
+      | Some q => if is_dir f q then lookup f (q ++ [c]) else None
+      | None => None
+      end
+  end.
+
+Definition is_symlink (f : fs) (p : path) : bool :=
+  match lstat f p with Some (Link _) => true | _ => false end.
+
 (** ** create_dir_all *)
 
-(* mkdir along `rest` from the canonical directory `cur`.  A missing component
-   is created; an existing directory, or a symlink that resolves to a
-   directory, is entered; anything else is an error.  Directories created
-   before an error stay (the bool is false on error). *)
+(* mkdir along `rest` from the physical directory `cur`.  A missing component
+   is created as a real directory; an existing directory, or a symlink that
+   resolves to a directory, is entered (so what follows is created where the
+   link points, possibly outside the output directory); anything else is an
+   error.  Directories created before an error stay (the bool is false on
+   error).  [std: mkdir(path); on ENOENT create_dir_all(parent) then mkdir(path);
+   EEXIST is fine when path.is_dir(), which follows links.] *)
 Fixpoint mkdir_all (f : fs) (cur rest : path) : fs * bool :=
   match rest with
   | [] => (f, true)
@@ -231,7 +275,7 @@ Fixpoint mkdir_all (f : fs) (cur rest : path) : fs * bool :=
       | Some Dir => mkdir_all f (cur ++ [c]) rest'
       | Some (File _) => (f, false)
       | Some (Link t) =>
-          match canonicalize f t with
+          match resolve MAXSYMLINKS f (link_base cur t) (snd t) with
           | Some q => if is_dir f q then mkdir_all f q rest' else (f, false)
           | None => (f, false)
           end
@@ -245,13 +289,17 @@ Definition create_dir_all (f : fs) (p : path) : fs * bool := mkdir_all f [] p.
 (* Resolves the parent (following symlinks), which must be a directory; then
    creates the file, truncates an existing one, fails on a directory, and
    FOLLOWS a symbolic link in the last component (no O_NOFOLLOW), creating the
-   target if it dangles.  Returns the new file system and the canonical path
-   of the file that was created/truncated. *)
-Fixpoint open_create (links : nat) (f : fs) (p : path) : option (fs * path) :=
-  match split_last p with
-  | None => None                       (* "/" : EISDIR *)
-  | Some (par, c) =>
-      match canonicalize f par with
+   target if it dangles.  Returns the new file system and the physical path
+   of the file that was created/truncated.  (The kernel has one budget of 40
+   links for the whole open(); here the parent and the chain of final links
+   have one each: only the ELOOP threshold differs.) *)
+Fixpoint open_create (links : nat) (f : fs) (cur : path) (rest : list seg)
+  : option (fs * path) :=
+  match split_last rest with
+  | None => None                       (* the directory itself: EISDIR *)
+  | Some (_, Up) => None               (* ".." : EISDIR *)
+  | Some (par, Down c) =>
+      match resolve MAXSYMLINKS f cur par with
       | None => None
       | Some q =>
           if is_dir f q then
@@ -262,7 +310,7 @@ Fixpoint open_create (links : nat) (f : fs) (p : path) : option (fs * path) :=
             | Some (Link t) =>
                 match links with
                 | O => None            (* ELOOP *)
-                | S k => open_create k f t
+                | S k => open_create k f (link_base q t) (snd t)
                 end
             end
           else None                    (* ENOTDIR *)
@@ -270,10 +318,10 @@ Fixpoint open_create (links : nat) (f : fs) (p : path) : option (fs * path) :=
   end.
 
 Definition file_create (f : fs) (p : path) : option (fs * path) :=
-  open_create MAXSYMLINKS f p.
+  open_create MAXSYMLINKS f [] (down p).
 
 (* write(2) on the handle returned by File::create: appends to the file at the
-   canonical path the handle refers to (io::copy in the per-file loop). *)
+   physical path the handle refers to (io::copy in the per-file loop). *)
 Definition write_at (f : fs) (cp : path) (data : bytes) : fs :=
   match lookup f cp with
   | Some (File old) => set f cp (File (old ++ data))
@@ -281,7 +329,13 @@ Definition write_at (f : fs) (cp : path) (data : bytes) : fs :=
   end.
 
 (* FileWriter::write of the linear extraction: OpenOptions::append(true).open(path)
-   on the LITERAL extracted path, resolved again at that time. *)
+   on the LITERAL extracted path, resolved again at that time, following
+   symbolic links everywhere (no O_NOFOLLOW, no O_CREAT).  The real FileWriter
+   keeps up to 1000 handles open in an LRU pool and re-opens by path when a
+   handle has been evicted; the model re-opens for every block, which is the
+   same file by PathLinks.canonicalize_stable (no operation of the extraction
+   creates, removes or retargets a link, removes a directory or turns a file
+   into something else). *)
 Definition append_path (f : fs) (p : path) (data : bytes) : option (fs * path) :=
   match canonicalize f p with
   | Some q =>
@@ -314,8 +368,8 @@ Inductive outcome :=
    NAME_MAX bytes gives ENAMETOOLONG, a path string of PATH_MAX bytes or more
    (with its terminating NUL) gives ENAMETOOLONG, a NUL byte inside the path is
    rejected by Rust's CString conversion (InvalidInput).  For such a path
-   `exists()` is false, and mkdir/open fail before touching anything (observed
-   with rust/cf.rs: Failed(InvalidFilename) / Failed(InvalidInput)). *)
+   `exists()` is false, and mkdir/lstat/open fail before touching anything
+   (observed with rust/cf.rs: Failed(InvalidFilename) / Failed(InvalidInput)). *)
 Definition NAME_MAX : N := 255.
 Definition PATH_MAX : N := 4096.
 Definition comp_ok (c : bytes) : bool :=
@@ -334,13 +388,23 @@ Definition prepare_parent (f : fs) (par : path) : fs * bool :=
     if exists_ f par then (f, true) else create_dir_all f par
   else (f, false).
 
+(* `fs::symlink_metadata(&extracted_path).is_ok_and(|m| m.file_type().is_symlink())` *)
+Definition sys_is_symlink (f : fs) (p : path) : bool :=
+  sys_ok p && is_symlink f p.
+
 (* File::create(&extracted_path) *)
 Definition sys_file_create (f : fs) (p : path) : option (fs * path) :=
   if sys_ok p then file_create f p else None.
 
 (* create_file, parameterised by the path-computing function `gp` (the real one
-   is get_extracted_path) and by the check `chk out canonical_parent` (the real
-   one is prefixb, i.e. Path::starts_with).
+   is get_extracted_path), by the check `chk out canonical_parent` (the real
+   one is prefixb, i.e. Path::starts_with) and by the test `lt fs
+   extracted_path` (the real one is sys_is_symlink; before the repair of D23
+   there was none: fun _ _ => false).
+
+   Order of the real code: component filter, parent(), exists(),
+   create_dir_all, canonicalize(parent), starts_with(output_dir),
+   symlink_metadata(extracted_path), File::create.
 
    `out` is the `output_dir` argument.  In main.rs both call sites (the linear
    extraction loop and the per-file loop of `extract`) pass `&output_dir` where
@@ -351,6 +415,7 @@ Definition sys_file_create (f : fs) (p : path) : option (fs * path) :=
    value is also the base onto which get_extracted_path pushes. *)
 Definition create_file_with
     (gp : path -> bytes -> option path) (chk : path -> path -> bool)
+    (lt : fs -> path -> bool)
     (out : path) (name : bytes) (f : fs) : fs * outcome :=
   match gp out name with
   | None => (f, Skipped)                        (* name contains ".." *)
@@ -365,10 +430,12 @@ Definition create_file_with
               | None => (f1, Failed)            (* canonicalize error *)
               | Some q =>
                   if chk out q then
-                    match sys_file_create f1 p with
-                    | None => (f1, Failed)      (* File::create error *)
-                    | Some (f2, cp) => (f2, Created p cp)
-                    end
+                    if lt f1 p then (f1, Skipped)   (* "already exists as a symbolic link" *)
+                    else
+                      match sys_file_create f1 p with
+                      | None => (f1, Failed)      (* File::create error *)
+                      | Some (f2, cp) => (f2, Created p cp)
+                      end
                   else (f1, Skipped)            (* "would be extracted outside" *)
               end
           end
@@ -376,11 +443,15 @@ Definition create_file_with
   end.
 
 Definition create_file : path -> bytes -> fs -> fs * outcome :=
-  create_file_with get_extracted_path prefixb.
+  create_file_with get_extracted_path prefixb sys_is_symlink.
 
 (* create_file without the canonicalize/starts_with test taken into account *)
 Definition create_file_nocheck : path -> bytes -> fs -> fs * outcome :=
-  create_file_with get_extracted_path (fun _ _ => true).
+  create_file_with get_extracted_path (fun _ _ => true) sys_is_symlink.
+
+(* create_file as it was before the repair of D23: no symlink_metadata test *)
+Definition create_file_old : path -> bytes -> fs -> fs * outcome :=
+  create_file_with get_extracted_path prefixb (fun _ _ => false).
 
 (* ------------------------------------------------------------------ *)
 (** * extraction of a list of members *)
@@ -450,6 +521,27 @@ Definition extract_linear (out : path) (names : list bytes)
   | (f1, ex, true) => append_blocks ex blocks f1
   | (f1, _, false) => (f1, false)
   end.
+
+(* ------------------------------------------------------------------ *)
+(** * The sandbox of the harness job c16-symlink *)
+
+(* "/" is the sandbox directory; `mlar extract -o out` runs in it.
+     sibling/  sibling/keepdir/  sibling/keep.txt="keep"  outside.txt="outside"
+     out/  out/deep/
+     out/link    -> ../sibling             (directory outside)
+     out/deep/l2 -> ../../sibling/keepdir  (directory outside, two levels up)
+     out/flink   -> ../outside.txt         (regular file outside) *)
+Definition fs_sandbox : fs :=
+  [ ([s2b "sibling"], Dir);
+    ([s2b "sibling"; s2b "keepdir"], Dir);
+    ([s2b "sibling"; s2b "keep.txt"], File (s2b "keep"));
+    ([s2b "outside.txt"], File (s2b "outside"));
+    ([s2b "out"], Dir);
+    ([s2b "out"; s2b "deep"], Dir);
+    ([s2b "out"; s2b "link"], Link (false, [Up; Down (s2b "sibling")]));
+    ([s2b "out"; s2b "deep"; s2b "l2"],
+       Link (false, [Up; Up; Down (s2b "sibling"); Down (s2b "keepdir")]));
+    ([s2b "out"; s2b "flink"], Link (false, [Up; Down (s2b "outside.txt")])) ].
 
 (* ------------------------------------------------------------------ *)
 (** * components: agreement with the real std::path on Linux *)
